@@ -51,6 +51,6 @@ def hr(state: StateBlock, startLine: int, endLine: int, silent: bool) -> bool:
 
     token = state.push("hr", "hr", 0)
     token.map = [startLine, state.line]
-    token.markup = marker * (cnt + 1)
+    token.markup = marker * cnt
 
     return True
